@@ -9,7 +9,12 @@ Decided:
         event.stream_id translated through their_stream_id[...] first.
   R05.2 capacity gate of Http2Client: the gate expression equals  open_outbound_streams >= (provisional or remote max)
         and the resume expression equals  queue non-empty and open_outbound_streams < (provisional or remote max)  on a
-        table of concrete values (the expressions are interpreted, not executed); a gated event is appended to
+        table of concrete values (the expressions are interpreted, not executed).  The only acceptable measure of "streams open upstream"
+        is hyper-h2's own open_outbound_streams: it drops a stream the moment it is closed by EITHER side.  When an expression reads another
+        attribute of the client (self.streams, the id maps ...) the class is searched for a method that closes a stream locally
+        (h2_conn.reset_stream / end_stream) while nothing on its call chain removes from that attribute; with such a witness the attribute
+        is an independent table variable (sizes 0..4) - phantom entries then either hold queued streams back for ever or overrun the limit -
+        without one the coupling is undecided (exit 2); a gated event is appended to
         stream_queue[its original stream id] and nothing else happens; resume takes the FIRST queued stream
         (pop(next(iter(queue)))) and replays its events in order, each once; provisional_max_concurrency is only
         cleared (to None) when RemoteSettingsChanged was received.
@@ -349,6 +354,75 @@ def _interp(expr, env, locs):
     raise AnalysisError(f"gate expression not interpretable: {norm(expr)}")
 
 
+BASE_ENV = (OPEN, PROV, REMOTE, QUEUE)
+REMOVERS = ("pop", "popitem", "clear", "remove", "discard")
+LOCAL_CLOSERS = ("reset_stream", "end_stream")
+
+
+def _self_reads(expr, locs, seen=None):
+    """`self.`-rooted attribute chains read by a gate expression (locals resolved through their single assignment)."""
+    out = []
+    seen = set() if seen is None else seen
+    for n in ast.walk(expr):
+        if isinstance(n, ast.Name) and n.id in locs and n.id not in seen:
+            seen.add(n.id)
+            out += _self_reads(locs[n.id], locs, seen)
+        elif isinstance(n, ast.Attribute) and not isinstance(getattr(n, "_parent", None), ast.Attribute):
+            ch = attr_chain(n)
+            if ch.startswith("self."):
+                out.append(ch)
+    return out
+
+
+def _removes(fn, chain):
+    """Does ``fn`` ever take something OUT of ``chain`` (pop/del/clear/remove, re-assignment, -=)?"""
+    for n in ast.walk(fn):
+        if isinstance(n, ast.Call) and method_call_on(n, chain) in REMOVERS:
+            return True
+        if isinstance(n, ast.Delete) and any(attr_chain(t.value if isinstance(t, ast.Subscript) else t) == chain for t in n.targets):
+            return True
+        if isinstance(n, ast.Assign) and any(attr_chain(t) == chain for t in n.targets):
+            return True
+        if isinstance(n, ast.AugAssign) and attr_chain(n.target) == chain:
+            return True
+    return False
+
+
+def _decoupled_from_h2(ctx, chain):
+    """Evidence that the bookkeeping attribute ``chain`` of Http2Client is NOT kept equal to hyper-h2's count of open outbound streams.
+
+    hyper-h2 drops a stream from ``open_outbound_streams`` as soon as it is closed - also when *we* close it (``h2_conn.reset_stream``,
+    ``h2_conn.end_stream`` after the peer half-closed).  A home-grown counter can only stand in for it if every method that closes a stream
+    locally - or a method on the call chain into it - takes the stream out of the counter.  Returns (qualname, call node) of a local closer
+    for which nothing on the call chain removes from ``chain``; None when no such witness exists (coupling undecided)."""
+    mro = ctx.model.mro(H2, "Http2Client")
+    methods = {}
+    for m, c in reversed(mro):
+        for st in c.body:
+            if isinstance(st, ast.FunctionDef):
+                methods.setdefault(st.name, []).append((c.name, st))
+    callers = {}
+    for name, defs in methods.items():
+        for cname, fn in defs:
+            for n in ast.walk(fn):
+                if isinstance(n, ast.Call) and isinstance(n.func, ast.Attribute) and n.func.attr in methods:
+                    callers.setdefault(n.func.attr, set()).add(name)
+    for name, defs in methods.items():
+        for cname, fn in defs:
+            closers = [n for n in walk_in_order(fn) if isinstance(n, ast.Call) and isinstance(n.func, ast.Attribute) and n.func.attr in LOCAL_CLOSERS and attr_chain(n.func.value) == "self.h2_conn"]
+            if not closers:
+                continue
+            chain_up, todo = {name}, [name]
+            while todo:
+                for c2 in callers.get(todo.pop(), ()):
+                    if c2 not in chain_up:
+                        chain_up.add(c2)
+                        todo.append(c2)
+            if not any(_removes(f2, chain) for nm in chain_up for _, f2 in methods[nm]):
+                return f"{cname}.{name}", closers[0]
+    return None
+
+
 def _gate_tables(ctx):
     fn = ctx.func(H2, "Http2Client._handle_event")
     w = (H2, "Http2Client._handle_event", fn)
@@ -368,21 +442,35 @@ def _gate_tables(ctx):
 
     gate = guard_of(lambda n: isinstance(n.func, ast.Attribute) and n.func.attr == "append" and isinstance(n.func.value, ast.Subscript) and attr_chain(n.func.value.value) == QUEUE, "stream_queue[...].append")
     resume = guard_of(lambda n: method_call_on(n, QUEUE) in ("pop", "popitem"), "stream_queue pop")
+    # quantities the two expressions read besides the modelled four: mitmproxy's own bookkeeping.  Such an attribute is only an acceptable
+    # measure of "streams open upstream" if it is kept equal to hyper-h2's count; when the class provably does not do that (a stream closed
+    # locally stays in it) the attribute is an independent variable of the table and is sampled independently of open_outbound_streams.
+    extras = {}
+    for ch in dict.fromkeys(_self_reads(gate, locs) + _self_reads(resume, locs)):
+        if ch in BASE_ENV or any(b.startswith(ch + ".") for b in BASE_ENV):
+            continue
+        ctx.require(ch.count(".") == 1, f"gate expression reads {ch}, which the value table does not model")
+        wit = _decoupled_from_h2(ctx, ch)
+        ctx.require(wit is not None, f"gate expression reads {ch}; it is removed from wherever a stream is closed locally, so it may or may not track open_outbound_streams (coupling not modelled)")
+        extras[ch] = wit
+        ctx.note(f"{ch} is not an upstream-open count: {wit[0]} closes a stream in hyper-h2 ({norm(wit[1])[:60]}) and nothing on its call chain removes from {ch}")
     bad_g = bad_r = None
-    for o, p, r, q in itertools.product((0, 1, 2, 3, 4), (None, 2), (1, 3), ({}, {7: ["e"]})):
-        env = {OPEN: o, PROV: p, REMOTE: r, QUEUE: q}
+    xs = [dict(zip(extras, combo)) for combo in itertools.product(*[[{i: "s" for i in range(k)} for k in (0, 1, 2, 3, 4)] for _ in extras])]
+    for o, p, r, q, x in itertools.product((0, 1, 2, 3, 4), (None, 2), (1, 3), ({}, {7: ["e"]}), xs):
+        env = {OPEN: o, PROV: p, REMOTE: r, QUEUE: q, **x}
         limit = p if p else r
         ctx.cells += 2
         g = bool(_interp(gate, env, locs))
-        if g != (o >= limit):
+        if g != (o >= limit) and bad_g is None:
             bad_g = (env, g)
         rs = bool(_interp(resume, env, locs))
-        if rs != (bool(q) and o < limit):
+        if rs != (bool(q) and o < limit) and bad_r is None:
             bad_r = (env, rs)
 
     def fmt(b):
         e = b[0]
-        return f"open={e[OPEN]} provisional={e[PROV]} remote_max={e[REMOTE]} queued={len(e[QUEUE])} -> {b[1]}"
+        own = "".join(f" len({ch})={len(e[ch])} [kept when {extras[ch][0]} closes a stream itself]" for ch in extras)
+        return f"open={e[OPEN]} provisional={e[PROV]} remote_max={e[REMOTE]} queued={len(e[QUEUE])}{own} -> {b[1]}"
 
     ctx.check(bad_g is None, "R05.2", w, "capacity gate expression", "a new upstream stream is opened although open_outbound_streams has reached (provisional or remote) max_concurrent_streams, or is "
               f"held back although there is capacity: {fmt(bad_g) if bad_g else ''}", desc="gate == open_outbound_streams >= (provisional or remote max) on 40 value rows")
@@ -699,7 +787,7 @@ def check(ctx):
 
 
 MUTANTS = [
-    Mutant("drop-stream-by-forwarded-event-id", I, "        yield DropStream(self.stream_id)", "        yield DropStream(event.stream_id)", "R05.5"),
+    Mutant("drop-stream-by-forwarded-event-id", I, "\n        yield DropStream(self.stream_id)", "\n        yield DropStream(event.stream_id)", "R05.5"),
     # R05.1
     Mutant("h2-their-map-wrong-key", H2, "                self.their_stream_id[ours] = event.stream_id\n            event.stream_id = ours\n\n        for cmd in self._handle_event2(event):",
            "                self.their_stream_id[event.stream_id] = ours\n            event.stream_id = ours\n\n        for cmd in self._handle_event2(event):", "R05.1"),
@@ -714,6 +802,9 @@ MUTANTS = [
     Mutant("gate-off-by-one", H2, "no_free_streams = self.h2_conn.open_outbound_streams >= (", "no_free_streams = self.h2_conn.open_outbound_streams > (", "R05.2"),
     Mutant("gate-ignores-provisional", H2, "                no_free_streams = self.h2_conn.open_outbound_streams >= (\n                    self.provisional_max_concurrency\n                    or self.h2_conn.remote_settings.max_concurrent_streams\n                )",
            "                no_free_streams = self.h2_conn.open_outbound_streams >= (\n                    self.h2_conn.remote_settings.max_concurrent_streams\n                )", "R05.2"),
+    Mutant("gate-counts-own-stream-table", H2, "no_free_streams = self.h2_conn.open_outbound_streams >= (", "no_free_streams = len(self.streams) >= (", "R05.2"),
+    Mutant("resume-counts-id-map", H2, "can_resume_queue = self.stream_queue and self.h2_conn.open_outbound_streams < (", "can_resume_queue = self.stream_queue and len(self.our_stream_id) < (", "R05.2"),
+    Mutant("gate-counts-mapped-minus-queued", H2, "no_free_streams = self.h2_conn.open_outbound_streams >= (", "no_free_streams = bool(self.their_stream_id) and len(self.their_stream_id) >= (", "R05.2"),
     Mutant("resume-lifo", H2, "events = self.stream_queue.pop(next(iter(self.stream_queue)))", "events = self.stream_queue.popitem()[1]", "R05.2"),
     Mutant("resume-without-capacity", H2, "can_resume_queue = self.stream_queue and self.h2_conn.open_outbound_streams < (", "can_resume_queue = self.stream_queue and self.h2_conn.open_outbound_streams <= (", "R05.2"),
     Mutant("gated-event-also-sent", H2, "                    self.stream_queue[event.stream_id].append(event)\n                    return\n", "                    self.stream_queue[event.stream_id].append(event)\n", "R05.2"),
